@@ -40,6 +40,9 @@ pub enum Block {
     /// modes in the order LL, OF, ML; count_form = 1, 2 or 3 bytes; pick = which of a symbol's states ends the
     /// backward chain (varies the initial states the decoder reads)
     Compressed { lits: Lits, count_form: u8, modes: [Mode; 3], seqs: Vec<Seq>, pick: usize },
+    /// a block header the format forbids, written verbatim: (block type 0..=3, Block_Size field, content bytes).
+    /// Never valid: `execute` refuses it.
+    Hostile(u8, u32, Vec<u8>),
 }
 
 #[derive(Clone, Debug, PartialEq, Default)]
@@ -424,6 +427,10 @@ pub fn encode_blocks(blocks: &[Block], st: &mut EncState) -> Result<Vec<u8>, Str
                 out.extend(&(n << 3 | 1 << 1 | last).to_le_bytes()[..3]);
                 out.push(*x);
             }
+            Block::Hostile(ty, size, content) => {
+                out.extend(&((size & 0x1F_FFFF) << 3 | (*ty as u32 & 3) << 1 | last).to_le_bytes()[..3]);
+                out.extend(content);
+            }
             Block::Compressed { lits, count_form, modes, seqs, pick } => {
                 let body = encode_block_body(lits, *count_form, modes, seqs, *pick, st)?;
                 if body.len() > MAX_BLOCK {
@@ -482,6 +489,7 @@ pub fn execute(blocks: &[Block], dict: Option<&Dict>) -> Result<Vec<u8>, String>
         match b {
             Block::Raw(v) => out.extend(v),
             Block::Rle(x, n) => out.extend(std::iter::repeat(*x).take(*n as usize)),
+            Block::Hostile(..) => return Err("a block header the format forbids".into()),
             Block::Compressed { lits, seqs, .. } => {
                 let l = lit_bytes(lits);
                 let mut lp = 0usize;
